@@ -388,6 +388,54 @@ impl W<'_> {
                     }
                     s70.insert(kk);
                 }
+                if o[1] & 1 == 1 {
+                    // two mid-sized sets, the second a near copy of the first: the same elements in
+                    // the same, the reverse or a rotated slot order, then up to three of them
+                    // removed or replaced (equal lengths of 8 and more with one element different)
+                    let n = scale(o[2], 65);
+                    let mut a64: Box<Set<u16, 64>> = Box::new(Set::new());
+                    let mut b64: Box<Set<u16, 64>> = Box::new(Set::new());
+                    let mut b70: Box<Set<u16, 70>> = Box::new(Set::new());
+                    let ks: Vec<u16> = (0..n).map(|j| key(ki + j * stride)).collect();
+                    for k in &ks {
+                        a64.insert(*k);
+                    }
+                    let order: Vec<u16> = match (o[3] >> 2) & 3 {
+                        0 => ks.clone(),
+                        1 => ks.iter().rev().copied().collect(),
+                        _ => {
+                            let r = if n > 0 { (o[3] as usize >> 4) % n } else { 0 };
+                            ks[r..].iter().chain(ks[..r].iter()).copied().collect()
+                        }
+                    };
+                    for k in &order {
+                        b64.insert(*k);
+                        b70.insert(*k);
+                    }
+                    let edits = o[3] as usize & 3;
+                    for e in 0..edits {
+                        if n == 0 {
+                            break;
+                        }
+                        let victim = ks[(o[3] as usize * 7 + e * 13 + n - 1) % n];
+                        let had = b64.remove(&victim);
+                        b70.remove(&victim);
+                        if had && e % 2 == 0 {
+                            // replaced by an element the first set does not hold
+                            b64.insert(victim + 3);
+                            b70.insert(victim + 3);
+                        }
+                    }
+                    match o[1] >> 6 {
+                        0 => alg_pair(cx, &*a64, &*b64),
+                        1 => alg_pair(cx, &*b64, &*a64),
+                        2 => alg_pair(cx, &*a64, &*b70),
+                        _ => alg_pair(cx, &*b70, &*a64),
+                    }
+                    let full_sweep = self.step % 4 == 0;
+                    self.sweep(full_sweep);
+                    return;
+                }
                 match o[3] >> 5 {
                     0 => alg_pair(cx, &*big, &s5),
                     1 => alg_pair(cx, &s5, &*big),
